@@ -42,9 +42,10 @@ def run_one(name):
             elif ln.startswith("# bounded/runtime contract"):
                 hits.append("bounded: " + ln.split()[3])
         hits = list(dict.fromkeys(hits))
-        meta["detected_by"] = hits
-        meta["check_exit_on_changed_tree"] = rc.returncode
-        json.dump(meta, open(os.path.join(d, "meta.json"), "w"), indent=1)
+        if not os.environ.get("SEEDED_NO_WRITE"):     # (runs with another VERIF_SEED keep the record)
+            meta["detected_by"] = hits
+            meta["check_exit_on_changed_tree"] = rc.returncode
+            json.dump(meta, open(os.path.join(d, "meta.json"), "w"), indent=1)
         return name, prop, rc.returncode, hits
     finally:
         subprocess.run(["git", "-C", REPO, "worktree", "remove", "--force", tree], capture_output=True)
